@@ -52,6 +52,9 @@ static std::string on_die_cb(int endkind, const std::string &detail) {
     if (o.stderr_text.size() > 600) o.stderr_text.resize(600);
     std::string prim = g_case ? primary_property(g_case->profile) : "C01";
     const OpSpec *op = (g_case && g_op >= 0 && g_op < (int)g_case->ops.size()) ? &g_case->ops[g_op] : nullptr;
+    { sim::RunStats ps; sim::peek_stats(ps); o.faults["alloc_fail_fired"] += ps.alloc_faults_fired; o.faults["thread_create_fail_fired"] += ps.create_faults_fired;
+      o.steps += ps.steps; o.decisions += ps.decisions; o.switches += ps.switches; o.events += ps.events; o.h_sched = sim::mix(o.h_sched, ps.h_sched); o.h_obs = sim::mix(o.h_obs, ps.h_obs); }
+    if (g_case && g_case->tags.count("alloc_mode")) o.probes[std::string("alloc_mode_") + std::to_string(g_case->tags.at("alloc_mode"))]++;
     // monitors may have pending violations
     monitor_collect(o.viols, g_op);
     monitor_probes(o.probes);
@@ -565,6 +568,49 @@ void eval_gstrs(Ctx &x, int opi, const OpSpec &op, long info, const std::vector<
     o.probes["factor_reuse_solves_checked"]++;
 }
 
+// C14: workspace modes and allocation failure (profile alloc)
+void eval_alloc(Ctx &x, int opi, const OpSpec &op, long info, const XOut &xo, const std::vector<cld> &Ain, const std::vector<cld> &Bin,
+                uint64_t a_hash0, uint64_t b_hash0, uint64_t x_hash0, long init_events, long tasks_created, long fired, SvxState &st) {
+    Case &c = x.c; Outcome &o = x.out; int n = c.M.n;
+    long mode = c.tags.count("alloc_mode") ? c.tags["alloc_mode"] : 0;
+    o.probes[std::string("alloc_mode_") + std::to_string(mode)]++;
+    if (mode == 1 && op.kind == OP_GSSVX) {   // query
+        o.probes["workspace_queries"]++;
+        if (init_events != 0 || tasks_created != 0) add_viol(o, "C14", "query_factorizes", fmt("lwork=-1 started a factorization (%ld) or created %ld threads", init_events, tasks_created), opi);
+        if (!(xo.mem_total_needed > 0)) add_viol(o, "C14", "query_no_estimate", fmt("total_needed=%g", xo.mem_total_needed), opi);
+        if (x.drv->A_hash() != a_hash0 && op.x.fact == 0) add_viol(o, "C14", "query_modifies_A", "lwork=-1 changed A", opi);
+        if (x.drv->X_hash() != x_hash0) add_viol(o, "C14", "query_modifies_X", "lwork=-1 changed X", opi);
+        return;
+    }
+    bool faulty = mode >= 3;
+    if (faulty && (mode == 3 || mode == 4)) { if (fired > 0) o.probes["alloc_fault_runs_fired"]++; else o.probes["alloc_fault_not_reached"]++; }
+    bool mem_fail = (op.kind == OP_GSSVX) ? (info > n + 1) : (info > n);
+    if (mem_fail) {
+        if (!faulty && mode != 2) add_viol(o, "C14", "memory_failure_without_fault", fmt("info=%ld n=%d", info, n), opi);
+        else o.probes["returned_info_gt_n"]++;
+        // objects must not be used by the caller; nothing else to check
+        return;
+    }
+    if (info < 0) { add_viol(o, "C14", "negative_info", fmt("info=%ld", info), opi); return; }
+    // the call claims success (or a numerical verdict): the result must be right
+    if (faulty && fired > 0) o.probes["succeeded_despite_failed_request"]++;
+    if (mode == 5) o.probes["workspace_size_sufficient_after_all"]++;
+    size_t nv0 = o.viols.size();
+    if (op.kind == OP_GSSV) {
+        if (x.drv->A_hash() != a_hash0) add_viol(o, "C14", "A_modified", "simple driver changed A", opi);
+        std::vector<cld> X = x.drv->get_B();
+        eval_factorization(x, opi, op, info, info == 0, Bin, X, 0, true);
+    } else {
+        eval_svx(x, opi, op, xo, Ain, Bin, a_hash0, b_hash0, x_hash0, st);
+        if (op.x.lwork > 0) {
+            o.probes["user_workspace_calls"]++;
+            if (!xo.work_guard_ok) add_viol(o, "C14", "workspace_guard_overwritten", "bytes outside the caller workspace were modified", opi);
+            if (!xo.lu_inside_work) add_viol(o, "C14", "LU_outside_workspace", "outside the caller workspace: " + xo.lu_outside_which, opi);
+        }
+    }
+    if (faulty) for (size_t i = nv0; i < o.viols.size(); ++i) if (o.viols[i].prop != "C14") { o.viols[i].detail = "after an injected fault the call returned as if it had succeeded: " + o.viols[i].detail; }
+}
+
 std::vector<cld> strip_ld(const std::vector<cld> &b, int n, int ldb, int nrhs) {
     std::vector<cld> o((size_t)n * nrhs);
     for (int j = 0; j < nrhs; ++j) for (int i = 0; i < n; ++i) o[(size_t)j * n + i] = b[(size_t)j * ldb + i];
@@ -668,6 +714,8 @@ Outcome run_case(Case &c, const RunnerOpts &ro) {
         sim::RunStats st;
         sim::end_run(st);
         monitor_end_op(out, opi, info);
+        out.alloc_requests = st.allocs; out.stack_marks = monitor_stack_marks(); out.mem_total_needed = xo.mem_total_needed;
+        long init_events = monitor_init_events();
         out.h_sched = sim::mix(out.h_sched, st.h_sched); out.h_obs = sim::mix(out.h_obs, st.h_obs); out.h_shape = sim::mix(out.h_shape, st.h_shape);
         out.steps += st.steps; out.decisions += st.decisions; out.switches += st.switches; out.events += st.events;
         if (ro.record) out.decisions_log.push_back(st.decisions_log);
@@ -712,6 +760,11 @@ Outcome run_case(Case &c, const RunnerOpts &ro) {
             if (op.x.refact && op.x.usepr && info == 0) eval_usepr(x, opi, op, pr_before);
             if (op.x.refact) out.probes["refactorizations"]++;
             if (op.x.lwork > 0) out.probes["user_workspace_calls"]++;
+            continue;
+        }
+        if (c.profile == "alloc") {
+            eval_alloc(x, opi, op, info, xo, A_before, Bin, a_hash0, b_hash0, x_hash0, init_events, st.tasks_created, st.alloc_faults_fired, svx_state);
+            if (drv.have_LU()) drv.destroy_LU(op.x.lwork > 0);
             continue;
         }
         if (c.profile == "sing") {
